@@ -214,6 +214,8 @@ def build_dbos_substitute(basic, store, idle_timeout, lifecycle_db):
         async def retrieve_workflow_async(run_id):
             SubDBOS.calls.append(("retrieve", run_id, vclock.vnow()))
             q = basic._queues.get(run_id)
+            if os.environ.get("VF_DEBUG_SUB"):
+                print("SUB retrieve", run_id, vclock.vnow(), "queues", q is not None, "complete", q and q.complete, flush=True)
             if q is None:
                 raise RuntimeError(f"no workflow {run_id}")
             return _Handle(q)
